@@ -311,7 +311,7 @@ fn palindrome(r: &mut Rng, half: usize, alpha: &[u8]) -> Vec<u8> {
 pub fn gen_reads(r: &mut Rng, k: usize) -> (Vec<Vec<u8>>, &'static str) {
     let alphas: [&[u8]; 5] = [&[0, 3], &[1, 2], &[0, 1, 3], &[0, 1, 2, 3], &[0, 1, 2, 3]];
     let alpha = *r.pick(&alphas);
-    let fam = r.below(12);
+    let fam = r.below(13);
     match fam {
         0 => {
             // homopolymer / short-period tandem repeat
@@ -393,6 +393,22 @@ pub fn gen_reads(r: &mut Rng, k: usize) -> (Vec<Vec<u8>>, &'static str) {
             }
             (v, "coverage+tip")
         }
+        8 | 9 => {
+            // strand trap: k-mer X seen once (rejected at threshold 2) after a prefix seen twice, and rc(X) ending a
+            // read seen twice: in stranded mode the dangling extension towards X must not resolve to rc(X)
+            let x = r.dna(k, &[0, 1, 2, 3]);
+            let mut a = r.dna_range(2, k + 4, &[0, 1, 2, 3]);
+            a.extend_from_slice(&x);
+            let a_short = a[..a.len() - 1].to_vec();
+            let mut b = r.dna_range(2, k + 4, &[0, 1, 2, 3]);
+            b.extend(rc_bytes(&x));
+            let mut v = vec![a, a_short.clone(), a_short, b.clone(), b];
+            if r.chance(1, 2) {
+                // mirrored: the dangling extension on the left side
+                v = v.iter().map(|s| rc_bytes(s)).collect();
+            }
+            (v, "strand-trap")
+        }
         _ => {
             let n = r.range(1, 4);
             let v = (0..n)
@@ -414,8 +430,8 @@ pub fn gen_input(r: &mut Rng, ks: &[usize]) -> GInput {
         *r.pick(ks)
     };
     let (mut reads, fam) = gen_reads(r, k);
-    let thr = *r.pick(&[1usize, 1, 1, 2, 2, 3]);
-    if thr > 1 && r.chance(2, 3) {
+    let thr = if fam == "strand-trap" { 2 } else { *r.pick(&[1usize, 1, 1, 2, 2, 3]) };
+    if thr > 1 && fam != "strand-trap" && r.chance(2, 3) {
         // raise coverage so that something survives the threshold
         let extra: Vec<Vec<u8>> = reads.clone();
         for _ in 1..thr {
